@@ -160,13 +160,13 @@ class ProgGen:
     def meta_goal(self, vars_):
         rnd = self.rnd
         r = rnd.random()
-        if r < 0.15 and vars_:
+        if r < 0.3 and vars_:
             # maplist/closure style: one goal term, called twice with different extra arguments
             cands = [p for p in self.preds if p[1] >= 1]
             if cands:
                 name, arity = rnd.choice(cands)
                 drop = rnd.randint(1, min(2, arity))
-                fixed = [sterm(rnd, vars_, 1, 0.5) for _ in range(arity - drop)]
+                fixed = [sterm(rnd, vars_, 1, 0.3) for _ in range(arity - drop)]
                 g = ('F', name, fixed) if fixed else ('A', name)
                 gv = ('V', 'G')
                 e1 = [sterm(rnd, vars_, 1, 0.75) for _ in range(drop)]
